@@ -15,9 +15,9 @@ import (
 func init() {
 	register(&CheckSpec{
 		ID: "C06", Fn: c06,
-		Rule:        "clause 1: one evaluation = one depth-d search with every unsound heuristic off (quiescence, razoring, RFP, null move, FP, QFP, LMP, LMR, extensions, TT value cuts, eval TT) under one on/off combination of the sound switches (PVS, killer, history counter, counter moves, IID with IIDDepth=2/IIDReduction=1, MDP, TT for ordering) whose BestValue and BestMove are compared with a pruning-free negamax written in the harness (engine Position/movegen/Evaluate, the engine's draw rule after each move, terminal scores -mate+ply / 0, leaves evaluated on a FEN-fresh position); clause 2: quiescence on, root value identical across the sampled / all 128 combinations; distinct = distinct (root identity, depth, mask)",
+		Rule:        "clause 1: one evaluation = one depth-d search with every unsound heuristic off (quiescence, razoring, RFP, null move, FP, QFP, LMP, LMR, extensions, TT value cuts, eval TT) under one on/off combination of the sound switches (PVS, killer, history counter, counter moves, IID with IIDDepth=2/IIDReduction=1, MDP, TT for ordering) whose BestValue and BestMove are compared with a pruning-free negamax written in the harness (engine Position/movegen/Evaluate, the engine's draw rule after each move, terminal scores -mate+ply / 0, leaves evaluated on a FEN-fresh position); clause 2: quiescence on, root value identical across the sampled / all 128 combinations; in both clauses part of the searches with the ordering-only table run on a table warmed by an earlier (deeper) search of the same root on the same Search object; distinct = distinct (root identity, depth, mask)",
 		Assumptions: []string{"the reference shares Position, move generation and Evaluate with the engine (judged by C01-C04, C15) but no search code", "roots that are already drawn by history are excluded (C05 covers them)"},
-		Required:    []string{"searches", "reference_nodes", "roots", "roots_single_move", "depth3_or_more", "mate_scores_seen", "draw_by_repetition_in_tree", "qs_groups", "masks_with_iid", "masks_without_pvs", "promotions_in_tree", "deep_mate_ending_roots", "mates_of_different_length_in_tree"},
+		Required:    []string{"searches", "reference_nodes", "roots", "roots_single_move", "depth3_or_more", "mate_scores_seen", "draw_by_repetition_in_tree", "qs_groups", "masks_with_iid", "masks_without_pvs", "promotions_in_tree", "deep_mate_ending_roots", "mates_of_different_length_in_tree", "warm_table_searches", "warm_table_searches_qs"},
 		MinEvals:    500,
 		TimeoutQ:    20 * 60e9,
 		TimeoutT:    180 * 60e9,
@@ -294,6 +294,17 @@ func c06(c *Ctx) {
 				rep.Inc("masks_without_pvs")
 			}
 			s.NewGame()
+			if m&smTTOrder != 0 && r.Chance(0.4) {
+				// a table used for ordering only may be warm: an earlier (deeper, when that is
+				// cheap) search of the same root on the same Search object must not change values
+				wd := depth
+				if depth <= 3 {
+					wd = depth + 1
+				}
+				runSearch(s, root.pos(), search.Limits{Depth: wd})
+				rep.Inc("warm_table_searches")
+				desc += " warm-table(after depth " + fmt.Sprint(wd) + ")"
+			}
 			res := runSearch(s, root.pos(), search.Limits{Depth: depth})
 			rep.Eval(1)
 			rep.Inc("searches")
@@ -330,6 +341,11 @@ func c06(c *Ctx) {
 				}
 				desc := applySound(m, true)
 				s.NewGame()
+				if m&smTTOrder != 0 && k > 0 && r.Chance(0.5) {
+					runSearch(s, root.pos(), search.Limits{Depth: qd + 1 + r.Intn(2)})
+					rep.Inc("warm_table_searches_qs")
+					desc += " warm-table"
+				}
 				res := runSearch(s, root.pos(), search.Limits{Depth: qd})
 				rep.Eval(1)
 				rep.Inc("searches")
